@@ -20,6 +20,11 @@ RULE = ("one case = one lookup (start, end or None=now, now, optional metadata f
         "days of a two month range (empty day folders, recordings outside the window in the edge folders, recordings that do "
         "not satisfy the filter), windows of 1-60 day folders looked up with limit 1-40 - fewer and more than the day folders "
         "and than the matching recordings -, as a random sample and in order: min(limit, matching) ids, all matching and inside; "
+        "stream `busy folder`: one day holding eleven recordings, every window inside it that holds one or two of them (the rest "
+        "of the folder lies outside, before and after) and windows reaching into the neighbouring folders, WITHOUT a filter, in "
+        "order, limit 1, 2, 3, 20, none; every fifth case of all the streams above is run a second time through another listing "
+        "entry point (S3TapeCassette.iter_recordings_metadata, find_matching_recording_ids with the default skip_incomplete "
+        "and with skip_incomplete=False): same window, same answer; "
         "every sixth case is run a second time in a process whose time zone is not UTC (TZ = America/New_York, Asia/Kolkata, "
         "Pacific/Auckland, America/Los_Angeles + tzset; the fake clock stays UTC): the bounds are naive UTC datetimes; "
         "every third case is run a second time with logging enabled (root logger at DEBUG / INFO with a formatting handler): "
@@ -92,6 +97,12 @@ def generate(rng, tier):
     cases += subsecond_cases()
     # ---- lookups with a limit (ordered / random sample) over windows with more day folders than the limit ------------
     cases += sparse_limit_cases(__import__("random").Random(rng_w.getrandbits(64)), tier)
+    # ---- a busy day folder: windows that hold one or two of its recordings, looked up with a limit and no filter -------
+    cases += busy_folder_cases()
+    # ---- every public listing entry point answers the same window: every fifth case once more through
+    # iter_recordings_metadata / the studio's find_matching_recording_ids (default skip_incomplete and without it)
+    cases += [dict(c, via=VIAS[(i // 5) % len(VIAS)], random=c["random"] and VIAS[(i // 5) % len(VIAS)] != "metadata")
+              for i, c in enumerate(cases) if i % 5 == 1]
     cases.sort(key=lambda c: (len(c["times"]), c["now"]))
     # ---- the process configuration is not an input of the lookup: every third case again with logging switched on ----
     # (root logger at DEBUG / INFO and a handler that formats every record, as when somebody investigates a lookup)
@@ -156,6 +167,44 @@ def sparse_limit_cases(rng, tier):
                 for rnd in (True, False):
                     flt = (w + limit) % 2 if (w + limit + rnd) % 3 == 0 else None
                     out.append(_case(times, tags, s0, e0, now, flt=flt, rnd=rnd, limit=limit))
+    return out
+
+
+VIAS = ["metadata", "find", "find-all"]      # listing entry points next to iter_recording_ids (harness/impl/window_driver.py)
+
+
+def busy_folder_cases():
+    """one busy day (a recording every other hour, two more on the neighbouring days): every window inside that day that
+    holds exactly one or two of its recordings - most of the folder lies OUTSIDE the window, before and after it, whatever
+    the key order inside the folder is - looked up in order WITHOUT a metadata filter with limit 1, 2, 3, 20 (below, at,
+    above the number of recordings in the window) and without a limit, through every listing entry point; and windows
+    reaching into the neighbouring day folders: min(limit, inside) recordings, all inside"""
+    d = DAYUS
+    day = [d + (2 * k + 1) * H + 7 * 60 * 10**6 for k in range(11)]
+    times = sorted([5 * H, 20 * H] + day + [2 * d + 4 * H, 2 * d + 22 * H])
+    tags = [i % 2 for i in range(len(times))]
+    now = 3 * d + H
+    out = []
+    n = 0
+    for k in range(len(day)):
+        for width in (1, 2):
+            if k + width > len(day):
+                continue
+            s0, e0 = day[k] - 30 * 60 * 10**6, day[k + width - 1] + 30 * 60 * 10**6
+            for limit in (1, 2, 3, 20, None):
+                via = (["ids"] + VIAS)[n % 4]
+                n += 1
+                c = _case(times, tags, s0, e0, now, limit=limit)
+                if via != "ids":
+                    c["via"] = via
+                out.append(c)
+    for s0, e0 in ((20 * H - 1, day[0] + 1), (day[-1] - 1, 2 * d + 4 * H), (5 * H + 1, day[1]), (day[5], 2 * d + 22 * H - 1)):
+        for limit in (1, 2, 3, 5, 20):
+            for via in ["ids"] + VIAS:
+                c = _case(times, tags, s0, e0, now, limit=limit)
+                if via != "ids":
+                    c["via"] = via
+                out.append(c)
     return out
 
 
@@ -274,8 +323,9 @@ def direct(case, obs):
     want = [i for i in inside if flt is None or tags[i] == flt]
     got = obs["listed"]
     fails = []
-    if case.get("log") or case.get("tz"):
-        fails = _Tagged((" [lookup made with logging enabled at %s]" % case["log"] if case.get("log") else "") +
+    if case.get("log") or case.get("tz") or case.get("via"):
+        fails = _Tagged((" [lookup made through %s]" % VIA_NAMES[case["via"]] if case.get("via") else "") +
+                        (" [lookup made with logging enabled at %s]" % case["log"] if case.get("log") else "") +
                         (" [lookup made in a process whose time zone is TZ=%s; the bounds are naive UTC]" % case["tz"]
                          if case.get("tz") else ""))
     lim = case.get("limit")
@@ -308,9 +358,18 @@ def direct(case, obs):
     return fails
 
 
+VIA_NAMES = {"metadata": "S3TapeCassette.iter_recordings_metadata", "find": "find_matching_recording_ids (default: "
+             "skip_incomplete=True)", "find-all": "find_matching_recording_ids(skip_incomplete=False)"}
+
+
 def features(case):
     e = case["now"] if case["end"] is None else case["end"]
     f = set()
+    f.add("entry-point=" + (case.get("via") or "iter_recording_ids"))
+    if case.get("limit") is not None and case.get("filter") is None and not case.get("random") and case.get("via") != "find":
+        D = 24 * H
+        if any((t // D == case["start"] // D and t < case["start"]) or (t // D == e // D and t > e) for t in case["times"]):
+            f.add("limit-without-filter:edge-day-folder-holds-recordings-outside-the-window")
     f.add("end=now" if case["end"] is None else "end=explicit")
     f.add("filter=" + ("none" if case.get("filter") is None else "metadata"))
     f.add("listing=" + ("shuffled" if case.get("random") else "ordered"))
@@ -368,6 +427,8 @@ def shrink_candidates(case):
         yield dict(case, tags=gs, log=None)
     if case.get("tz"):
         yield dict(case, tags=gs, tz=None)
+    if case.get("via"):
+        yield dict(case, tags=gs, via=None)
     if case.get("random"):
         yield dict(case, tags=gs, random=False)
     if case.get("filter") is not None:
@@ -376,7 +437,7 @@ def shrink_candidates(case):
 
 MANIFEST = dict(
     design_ref='6/C16',
-    text='Coq theorems over all integer instants (window exactness, also next to a metadata filter; day cover, nothing outside, distinct folders; legacy defect refuted with a witness) about a hand-written model of _get_id_prefixes + the facade predicate list (last-modified predicate, content predicate); model tied to /repo on every run by running the real S3TapeCassette (fake bucket, fake clock) and the model on the same window grid + random instants (4 days, hour / minute / microsecond level) and on wide windows (31-121 day folders over six and a half months, the start on every day of the month), each window without and (every second one) with a metadata filter, ordered or shuffled, on bounds and save instants fractions of a second apart, on limited lookups (random sample / ordered, limit below the number of day folders; implementation side only), every third case again with logging enabled at DEBUG / INFO, every sixth again under a non-UTC process time zone; direct predicate on the implementation searches for a failing window.',
+    text='Coq theorems over all integer instants (window exactness, also next to a metadata filter; day cover, nothing outside, distinct folders; legacy defect refuted with a witness) about a hand-written model of _get_id_prefixes + the facade predicate list (last-modified predicate, content predicate); model tied to /repo on every run by running the real S3TapeCassette (fake bucket, fake clock) and the model on the same window grid + random instants (4 days, hour / minute / microsecond level) and on wide windows (31-121 day folders over six and a half months, the start on every day of the month), each window without and (every second one) with a metadata filter, ordered or shuffled, on bounds and save instants fractions of a second apart, on limited lookups (random sample / ordered, limit below the number of day folders; limit without a filter over a busy day folder most of which lies outside the window; implementation side only), every fifth case again through iter_recordings_metadata / find_matching_recording_ids (every listing entry point answers the same window), every third case again with logging enabled at DEBUG / INFO, every sixth again under a non-UTC process time zone; direct predicate on the implementation searches for a failing window.',
     note="Trusted: Coq kernel + vm_compute; hand-written model; correspondence harness (fake bucket behind the real S3BasicFacade, fake clock); strftime day formatting and 'process clock is UTC' are assumptions.",
     technique='Coq proof (lia over Z) + model/implementation correspondence by vm_compute',
 )
